@@ -179,7 +179,10 @@ class CallMixin:
             pass
         post_ctx = Ctx(self, st, old=old, args=args, kw=kw, recv=recv, extra=extra)
         if c.returns is not None:
-            result = S.lift(c.returns(post_ctx))
+            result = c.returns(post_ctx)
+            if hasattr(result, "_ref") and not isinstance(result, V):
+                result = result._ref          # an ObjView: the callee returns a declared object
+            result = S.lift(result)
         else:
             rs = c.result if c.result is not None else (expect if expect is not None and not expect.pyside else ANY)
             result = S.NONEV() if rs == NONE else self.fresh(rs, "ret_" + _short(c.label), st)
